@@ -178,6 +178,7 @@ type Conn struct {
 	afterWrite func(n int)
 	writeHook  func(p []byte)
 	syncWrites bool
+	stall      chan struct{}
 
 	blockedNoDeadline atomic.Int32
 	blockedReads      atomic.Int32
@@ -234,6 +235,21 @@ func (c *Conn) SetWriteHook(f func(p []byte)) {
 	c.mu.Lock()
 	c.writeHook = f
 	c.mu.Unlock()
+}
+
+// StallWrites(true) makes every Write wait, before it accepts anything, like a
+// connection whose peer has stopped reading and whose buffers are full: until
+// StallWrites(false), the end of the connection, or the write deadline (the
+// write then fails with a timeout and nothing written).
+func (c *Conn) StallWrites(on bool) {
+	c.mu.Lock()
+	defer c.mu.Unlock()
+	if on && c.stall == nil {
+		c.stall = make(chan struct{})
+	} else if !on && c.stall != nil {
+		close(c.stall)
+		c.stall = nil
+	}
 }
 
 // SetSyncWrites makes Write block, like net.Pipe, until the peer has read
@@ -480,9 +496,19 @@ func (c *Conn) Write(p []byte) (int, error) {
 	k := c.nWrite
 	act := c.opStart()
 	failAt := c.fault.FailWrite
+	stall := c.stall
 	c.mu.Unlock()
 	if act != nil {
 		act()
+	}
+	if stall != nil {
+		select {
+		case <-stall:
+		case <-c.closed:
+			return 0, io.ErrClosedPipe
+		case <-c.wd.wait():
+			return 0, &net.OpError{Op: "write", Net: "bufconn", Err: timeoutError{}}
+		}
 	}
 	select {
 	case <-c.closed:
